@@ -2,6 +2,7 @@
 import gens, common
 from common import Failure
 from props._base import *  # noqa
+TRUSTED_BASE = TRUSTED_BASE + ['tools/py2lean.py (syntax-directed translation of the Python source into A5/Gen/Src.lean, regenerated every run) and the operator semantics of A5/Model/PySem.lean — both exercised every run by executing the translated source (lean/SrcMain.lean) against the implementation on the same ops, negative ints included', 'kernel-checked bridge theorems (A5/Proofs/SrcBridge*.lean, A5/Props/SrcTie/*.lean): translated source = hand-written model for EVERY non-negative id / every list of ids / every int argument']
 from refids import ref_res, ref_children_set, ref_decode, MAXV
 
 LEAN_MODULES = ['A5.Props.C10', 'A5.Props.SrcTie.Uncompact']
@@ -9,11 +10,13 @@ SRC_TIE = True
 LEVEL = 'proof'
 EXPLANATION = ('Lean theorem for every list of valid ids (any length/order/duplicates) and every target 0..29: uncompact = concatenation, in input order and with multiplicity, of '
                'cell_to_children(cell, t); length = sum of get_num_children; every output cell is valid, at resolution t and maps back to its source; a finer input cell makes it raise '
-               '(no partial result); a sizing/filling mismatch would be an IndexError, never a silent gap. Purity of the argument is tied by the harness (argument compared after the call).')
+               '(no partial result); a sizing/filling mismatch would be an IndexError, never a silent gap. Purity of the argument is tied by the harness (argument compared after the call).'
+               " SOURCE-LEVEL TIE (every run): the functions of this property's cone are translated from /repo's current source by tools/py2lean.py into Lean definitions (A5/Gen/Src.lean); bridge theorems prove, for every input (no sampling), that the translated definitions compute exactly what the hand-written model computes, and the headline theorems are restated about the translated source (`*_of_source`). A source change changes the generated definitions and the kernel re-checks the bridges; a construct outside the translated subset (decorators, global state, …) is reported as a broken tie.")
 RULE = 'ops: random lists of 0..6 valid cells within 3 levels of the target (expansion bounded), duplicates, world cell, finer cells (error), malformed ids; distinct op lines'
-ASSUMPTIONS = ['sampled agreement of A5/Model/Compact.lean (uncompact) with a5/core/compact.py extends to all inputs']
-LEVEL_TEXT = 'machine-checked proof (Lean 4 kernel) of order, multiplicity, size, resolution, ancestry and error behaviour of uncompact for all lists; model tied by differential correspondence'
-TECHNIQUE = 'Lean 4 proof (induction over the input list, buffer-fill invariant) + differential correspondence'
+ASSUMPTIONS = ['the translator tools/py2lean.py and A5/Model/PySem.lean represent CPython faithfully on the integer core (validated every run by executing the translated source against the implementation)']
+LEVEL_TEXT = 'machine-checked proof (Lean 4 kernel) of order, multiplicity, size, resolution, ancestry and error behaviour of uncompact for all lists; model tied to the source by per-run translation + kernel-checked bridge theorems, and by differential correspondence'
+TECHNIQUE = 'Lean 4 proof (induction over the input list, buffer-fill invariant) + differential correspondence + source translated to Lean each run (py2lean) with bridge theorems Src = Model for all inputs'
+LEVEL_NOTE = 'trusted: Lean kernel + standard axioms; gen_tables.py; py2lean.py + PySem.lean (translator and Python operator semantics, executed against the implementation every run); CPython int/list semantics as modelled there'
 DESIGN_REF = 'DESIGN.md §3 C10'
 
 def gen_ops(tier, rng):
